@@ -36,7 +36,10 @@ THEOREMS = ["Pfl.CFG.genCounters_restores",
             "Pfl.CFG.Obj.answer_generating",
             "Pfl.CFG.Obj.answer_nullable",
             "Pfl.CFG.Obj.answer_isEmpty",
-            "Pfl.CFG.Obj.answer_contains"]
+            "Pfl.CFG.Obj.answer_contains",
+            "Pfl.IG.Obj.isEmpty_history_independent",
+            "Pfl.IG.Obj.isEmpty_history_fresh",
+            "Pfl.IG.Obj.runCalls_total"]
 REGEX_TEXTS = ["a", "b", "a b", "a*", "a|b", "(a|b)*", "a b*", "$", "a (b|a)"]
 WORDS = [[], ["a"], ["b"], ["a", "b"], ["a", "a"], ["b", "a"], ["a", "b", "b"]]
 
